@@ -6,7 +6,7 @@ prop, m = sys.argv[1], sys.argv[2]
 checks = sys.argv[3:] or [prop]
 src = os.environ.get("SEED_SRC") or (f"/tmp/wt/{prop}/_seed" if os.path.isdir(f"/tmp/wt/{prop}/_seed") else f"/tmp/seeds_backup/{prop}")
 store_as = os.environ.get("SEED_AS") or m
-wt = "/tmp/wt/confirm"
+wt = os.environ.get("CONFIRM_WT", "/tmp/wt/confirm")
 def sh(cmd, **kw):
     return subprocess.run(cmd, shell=True, capture_output=True, text=True, **kw)
 if not os.path.isdir(wt):
